@@ -11,28 +11,28 @@ Import ListNotations.
 Open Scope Z_scope.
 
 (* "a connection that receives some byte at least once every Time is never closed by keepalive":
-   for EVERY timeline of waits, reads, stream opens/closes and ack behaviour, if the loop has
-   closed the transport then the close came exactly Timeout after the last ping with nothing read
-   in between, and - unless that ping was the one sent on waking up from dormancy - nothing had
-   been read during the Time + Timeout before the close (k_timer = instant of the close). *)
+   for EVERY timeline of waits, reads, stream opens/closes (dormancy and wake-ups included) and
+   ack behaviour, if the loop has closed the transport then nothing had been read during the
+   Time + Timeout before the close (k_timer = instant of the close), and the close came exactly
+   Timeout after the last ping. *)
 Theorem C15_healthy_never_killed : forall c ops, cfg_ok c -> xs_ok ops ->
   let s := kreach c (kinit c) ops in
   k_closed s = true ->
-  k_timer s = k_ping s + kc_timeout c /\ k_last s <= k_prev s /\
-  (k_wake s = false -> k_last s + kc_time c + kc_timeout c <= k_timer s).
+  k_last s + kc_time c + kc_timeout c <= k_timer s /\ k_timer s = k_ping s + kc_timeout c.
 Proof. exact healthy_never_killed. Qed.
 Print Assumptions C15_healthy_never_killed.
 
-(* For a wake-up ping the sentence is FALSE of the code (since 7e22c66 refreshes prevNano on
-   wake-up and pings at once): Time 2 s, Timeout 1 s, dormant; a byte at 3.002 s, a stream at
-   3.003 s: ping at 3.003 s, closed at 4.003 s although a byte was read 1.001 s earlier. *)
-Theorem C15_wake_ping_kills_recently_heard_peer :
-  krun (mkkc 2000 1000 false) (kinit (mkkc 2000 1000 false)) [(1, KWait); (2, KRead); (0, KOpen); (1, KWait)] =
-  [[1001]; [3002]; [3003; 6; 3003]; [4004; 8; 4003]].
-Proof. exact wake_ping_kills_recently_heard_peer. Qed.
-Print Assumptions C15_wake_ping_kills_recently_heard_peer.
+(* the witness against the first repair (7e22c66 alone closed this peer at 4.003 s): Time 2 s,
+   Timeout 1 s, dormant; a byte at 3.002 s, a stream at 3.003 s.  No ping on wake-up; the ping
+   comes at 5.002 s = t0 + Time and the still silent peer is closed at 6.002 s. *)
+Theorem C15_wake_does_not_kill_recently_heard_peer :
+  krun (mkkc 2000 1000 false) (kinit (mkkc 2000 1000 false))
+       [(1, KWait); (2, KRead); (0, KOpen); (1, KWait); (1, KWait); (1, KWait)] =
+  [[1001]; [3002]; [3003]; [4004]; [5005; 6; 5002]; [6006; 8; 6002]].
+Proof. exact wake_does_not_kill_recently_heard_peer. Qed.
+Print Assumptions C15_wake_does_not_kill_recently_heard_peer.
 
-(* Dead-peer bound, in three steps (partial: not assembled into one statement over all timelines).
+(* Dead-peer bound, in four steps (partial: not assembled into one statement over all timelines).
    (1) once the loop has noticed a read L, the next firing is at max(now, L + Time); *)
 Theorem C15_dead_peer_bound_partial_timer : forall c s, k_prev s < k_last s ->
   snd (fire c s) = [] /\ k_timer (fst (fire c s)) = Z.max (k_timer s) (k_last s + kc_time c) /\
@@ -61,19 +61,24 @@ Theorem C15_dead_peer_bound_partial_close : forall c, cfg_ok c -> forall k s tar
 Proof. exact ping_to_close. Qed.
 Print Assumptions C15_dead_peer_bound_partial_close.
 
-(* (4) a wake-up from dormancy (first stream after an idle period) pings at that instant with
-   prevNano = lastRead, so by (3) a peer that stays silent is closed exactly Timeout after the
-   moment keepalive became applicable, even if a byte had arrived while the loop was dormant; *)
+(* (4) a wake-up from dormancy at a (first stream after an idle period): if a byte was read while
+   dormant (t0 = last) it is treated as read activity - no ping before t0 + Time, ping at once
+   if that is already past; otherwise the ping goes out at a.  With (2) and (3): a silent peer
+   is closed at max(t0 + Time, a) + Timeout. *)
 Theorem C15_dead_peer_bound_partial_wake : forall c s, cfg_ok c -> kinv c s -> k_closed s = false -> k_dorm s = true ->
   let r := act c s KOpen in
-  snd r = [(6, k_now s)] /\ k_ping (fst r) = k_now s /\ k_out (fst r) = true /\ k_dorm (fst r) = false /\
-  k_prev (fst r) = k_last s /\ (k_ack s = false -> k_last (fst r) = k_last s) /\
-  k_timer (fst r) + k_left (fst r) = k_now s + kc_timeout c /\ k_streams (fst r) = k_streams s + 1.
-Proof. exact wake_pings. Qed.
+  k_dorm (fst r) = false /\
+  (k_prev s < k_last s ->
+     k_prev (fst r) = k_last s /\
+     (k_now s < k_last s + kc_time c -> snd r = [] /\ k_out (fst r) = false /\ k_timer (fst r) = k_last s + kc_time c) /\
+     (k_last s + kc_time c <= k_now s -> snd r = [(6, k_now s)] /\ k_ping (fst r) = k_now s /\ k_out (fst r) = true)) /\
+  (k_last s <= k_prev s -> snd r = [(6, k_now s)] /\ k_ping (fst r) = k_now s /\ k_out (fst r) = true /\
+                           k_timer (fst r) + k_left (fst r) = k_now s + kc_timeout c).
+Proof. exact wake_step. Qed.
 Print Assumptions C15_dead_peer_bound_partial_wake.
 
-(* the witness of the former stale-read defect now meets the bound: byte at 92.002 s while
-   dormant, stream at 192.003 s, one ping, closed at 197.003 s = wake-up + Timeout *)
+(* the witness of the former stale-read defect meets the bound: byte at 92.002 s while dormant,
+   stream at 192.003 s, one ping, closed at 197.003 s = max(t0 + Time, a) + Timeout *)
 Theorem C15_dormancy_wake_bound_witness :
   krun (mkkc 10000 5000 false) (kinit (mkkc 10000 5000 false))
        [(12, KWait); (80, KRead); (100, KOpen); (4, KWait); (0, KWait); (4, KWait); (1, KWait); (10, KWait)] =
